@@ -164,6 +164,10 @@ def convert(
 
         _main(fname=fname, outname=outname, verbose=verbose)
 
+    if to not in {".c", ".h", ".py", ".ode"}:
+        typer.echo(f"Unknown target {to!r}. Expected one of .c, .h, .py or .ode", err=True)
+        raise typer.Exit(code=1)
+
 
 @app.command()
 def cellml2ode(
